@@ -55,11 +55,58 @@ type Input struct {
 	All     bool     `json:"all,omitempty"`
 	Prev    bool     `json:"prev,omitempty"` // every generator has a (longer, valid) previous output file in place
 	Gens    []Gen    `json:"gens"`
+	// Mod2: a second module (own go.mod, reached from the first through require + replace) with one package that
+	// enables the same generators; its import path is the second entrypoint of the ONE Execute call
+	Mod2 *Module `json:"mod2,omitempty"`
+}
+
+type Module struct {
+	ModPath string   `json:"mod"`
+	GoVer   string   `json:"go"`
+	Dir     string   `json:"dir"`
+	PkgName string   `json:"pkg"`
+	Types   []string `json:"types"`
+}
+
+// npkgs: number of target packages of the case (1, or 2 with a second module)
+func (in *Input) npkgs() int {
+	if in.Mod2 != nil {
+		return 2
+	}
+	return 1
+}
+
+// view: the input as seen from its k-th target package (module path, go directive, directory, package name, types)
+func (in *Input) view(k int) *Input {
+	if k == 0 || in.Mod2 == nil {
+		return in
+	}
+	c := *in
+	c.ModPath, c.GoVer, c.Dir, c.PkgName, c.Types = in.Mod2.ModPath, in.Mod2.GoVer, in.Mod2.Dir, in.Mod2.PkgName, in.Mod2.Types
+	c.Mod2 = nil
+	return &c
+}
+
+func (in *Input) pkgPath() string {
+	if in.Dir != "" {
+		return in.ModPath + "/" + in.Dir
+	}
+	return in.ModPath
+}
+
+func pseudoVersion(modPath string) string {
+	if i := strings.LastIndex(modPath, "/v"); i >= 0 {
+		if n := modPath[i+2:]; n != "" && strings.Trim(n, "0123456789") == "" && n != "0" && n != "1" {
+			return "v" + n + ".0.0"
+		}
+	}
+	return "v0.0.0"
 }
 
 // ---- output ----
 
 type GenObs struct {
+	Pkg     int         `json:"pkg,omitempty"` // index of the target package (0 = first module, 1 = second module)
 	Name    string      `json:"name"`
 	Calls   int         `json:"calls"`
 	Renders [][][]byte  `json:"renders"` // per Render call, the fragments written
@@ -76,6 +123,7 @@ type ChildOut struct {
 	PkgPath string   `json:"pkg_path"`
 	Gens    []GenObs `json:"gens"`
 	Others  []string `json:"others,omitempty"` // other files in the package directory after the run
+	GoVers  []string `json:"go_vers,omitempty"` // go directive of each module's go.mod AFTER the run (the go command may raise it)
 }
 
 func toSnippet(s Snip) snippet.Snippet {
@@ -182,33 +230,46 @@ func (g *scripted) GenerateType(c gengo.Context, named *types.Named) error {
 	return nil
 }
 
-// WriteModule lays the synthetic module out under root.
+// WriteModule lays the synthetic module out under root (and the second module, if any, next to it as root+"2").
 func WriteModule(root string, in *Input) error {
-	dir := filepath.Join(root, filepath.FromSlash(in.Dir))
-	if err := os.MkdirAll(dir, 0o755); err != nil {
-		return err
-	}
-	gomod := "module " + in.ModPath + "\n\ngo " + in.GoVer + "\n"
-	if err := os.WriteFile(filepath.Join(root, "go.mod"), []byte(gomod), 0o644); err != nil {
-		return err
-	}
-	var b strings.Builder
-	for _, g := range in.Gens {
-		b.WriteString("// +gengo:" + g.Name + "\n")
-	}
-	b.WriteString("package " + in.PkgName + "\n\n")
-	for _, t := range in.Types {
-		b.WriteString("type " + t + " struct{}\n\n")
-	}
-	if in.Prev {
-		for i, g := range in.Gens {
-			old := fmt.Sprintf("package %s\n\nvar Old%d = %d\n\n%s", in.PkgName, i, i, strings.Repeat("// previous output, to be replaced\n", 200))
-			if err := os.WriteFile(filepath.Join(dir, in.Base+"."+g.Name+".go"), []byte(old), 0o644); err != nil {
-				return err
+	for k := 0; k < in.npkgs(); k++ {
+		v := in.view(k)
+		mroot := root
+		if k == 1 {
+			mroot = root + "2"
+		}
+		dir := filepath.Join(mroot, filepath.FromSlash(v.Dir))
+		if err := os.MkdirAll(dir, 0o755); err != nil {
+			return err
+		}
+		gomod := "module " + v.ModPath + "\n\ngo " + v.GoVer + "\n"
+		if k == 0 && in.Mod2 != nil {
+			gomod += "\nrequire " + in.Mod2.ModPath + " " + pseudoVersion(in.Mod2.ModPath) + "\n\nreplace " + in.Mod2.ModPath + " => ../" + filepath.Base(root) + "2\n"
+		}
+		if err := os.WriteFile(filepath.Join(mroot, "go.mod"), []byte(gomod), 0o644); err != nil {
+			return err
+		}
+		var b strings.Builder
+		for _, g := range in.Gens {
+			b.WriteString("// +gengo:" + g.Name + "\n")
+		}
+		b.WriteString("package " + v.PkgName + "\n\n")
+		for _, t := range v.Types {
+			b.WriteString("type " + t + " struct{}\n\n")
+		}
+		if in.Prev {
+			for i, g := range in.Gens {
+				old := fmt.Sprintf("package %s\n\nvar Old%d = %d\n\n%s", v.PkgName, i, i, strings.Repeat("// previous output, to be replaced\n", 200))
+				if err := os.WriteFile(filepath.Join(dir, in.Base+"."+g.Name+".go"), []byte(old), 0o644); err != nil {
+					return err
+				}
 			}
 		}
+		if err := os.WriteFile(filepath.Join(dir, "src.go"), []byte(b.String()), 0o644); err != nil {
+			return err
+		}
 	}
-	return os.WriteFile(filepath.Join(dir, "src.go"), []byte(b.String()), 0o644)
+	return nil
 }
 
 func childMain(args []string) int {
@@ -234,11 +295,7 @@ func childMain(args []string) int {
 		return 2
 	}
 	out := ChildOut{}
-	pkgPath := in.ModPath
-	if in.Dir != "" {
-		pkgPath += "/" + in.Dir
-	}
-	out.PkgPath = pkgPath
+	out.PkgPath = in.pkgPath()
 	gens := make([]*scripted, len(in.Gens))
 	names := make([]string, len(in.Gens))
 	for i := range in.Gens {
@@ -264,8 +321,12 @@ func childMain(args []string) int {
 		if in.Dir == "" {
 			entry = "."
 		}
+		entries := []string{entry}
+		if in.Mod2 != nil {
+			entries = append(entries, in.view(1).pkgPath())
+		}
 		ex, err := gengo.NewContext(&gengo.GeneratorArgs{
-			Entrypoint:         []string{entry},
+			Entrypoint:         entries,
 			OutputFileBaseName: in.Base,
 			All:                in.All,
 			Force:              true,
@@ -287,32 +348,49 @@ func childMain(args []string) int {
 	}()
 	if out.LoadErr == "" {
 		// what is on disk and what the shadow writers saw — also after a panic
-		dir := filepath.Join(root, filepath.FromSlash(in.Dir))
-		seen := map[string]bool{"src.go": true}
-		for i, g := range gens {
-			o := GenObs{Name: in.Gens[i].Name, Renders: [][][]byte{}, Imports: [][2]string{}}
-			if r := g.recs[pkgPath]; r != nil {
-				o.Calls = r.calls
-				o.Renders = r.renders
-				for p, n := range r.tracker.Imports() {
-					o.Imports = append(o.Imports, [2]string{p, n})
+		for k := 0; k < in.npkgs(); k++ {
+			v := in.view(k)
+			mroot := root
+			if k == 1 {
+				mroot = root + "2"
+			}
+			pkgPath := v.pkgPath()
+			dir := filepath.Join(mroot, filepath.FromSlash(v.Dir))
+			gv := ""
+			if b, err := os.ReadFile(filepath.Join(mroot, "go.mod")); err == nil {
+				for _, l := range strings.Split(string(b), "\n") {
+					if f := strings.Fields(l); len(f) == 2 && f[0] == "go" {
+						gv = f[1]
+					}
 				}
 			}
-			fn := in.Base + "." + o.Name + ".go"
-			seen[fn] = true
-			if b, err := os.ReadFile(filepath.Join(dir, fn)); err == nil {
-				o.HasFile, o.File = true, b
+			out.GoVers = append(out.GoVers, gv)
+			seen := map[string]bool{"src.go": true}
+			for i, g := range gens {
+				o := GenObs{Pkg: k, Name: in.Gens[i].Name, Renders: [][][]byte{}, Imports: [][2]string{}}
+				if r := g.recs[pkgPath]; r != nil {
+					o.Calls = r.calls
+					o.Renders = r.renders
+					for p, n := range r.tracker.Imports() {
+						o.Imports = append(o.Imports, [2]string{p, n})
+					}
+				}
+				fn := in.Base + "." + o.Name + ".go"
+				seen[fn] = true
+				if b, err := os.ReadFile(filepath.Join(dir, fn)); err == nil {
+					o.HasFile, o.File = true, b
+				}
+				out.Gens = append(out.Gens, o)
 			}
-			out.Gens = append(out.Gens, o)
-		}
-		if ents, err := os.ReadDir(dir); err == nil {
-			for _, e := range ents {
-				if !seen[e.Name()] {
-					out.Others = append(out.Others, e.Name())
+			if ents, err := os.ReadDir(dir); err == nil {
+				for _, e := range ents {
+					if !seen[e.Name()] {
+						out.Others = append(out.Others, e.Name())
+					}
 				}
 			}
-			sort.Strings(out.Others)
 		}
+		sort.Strings(out.Others)
 	}
 	b, _ := json.Marshal(out)
 	if err := os.WriteFile(filepath.Join(work, "out.json"), b, 0o644); err != nil {
